@@ -14,7 +14,11 @@ Expr terms over exact rationals; proved over R in Props/C17.v).  The driver
  D. LKJCholeskyFactorPrior / LKJPrior / LKJCovariancePrior on exact rational correlation matrices against the density of
     the Cholesky factor and the documented density of the matrix (Props: they differ by the log Jacobian);
  E. Prior(transform=log/exp/square) = base density at transform(x); MultivariateNormalPrior against exact rational
-    linear algebra (inverse certificate + determinant in Coq)."""
+    linear algebra (inverse certificate + determinant in Coq);
+ F. modules with several constrained parameters, each under its own constraint (multi-parameter model);
+ G. histories in which the BOUNDS of a parameter are replaced (load_state_dict from a module built with other bounds,
+    register_constraint, casts / copies) followed by the usual operations, against the model cell under the bounds in
+    force (Models/C17_constraints.v bstep / btrace)."""
 import inspect
 import json
 import math
@@ -1203,6 +1207,342 @@ def part_prior_transforms(out, rng, tier):
                          desc, impl=got, model=float(model))
 
 
+# ------------------------------------------------------------------------------- G. bounds replaced
+
+def bounds_factories():
+    """(name, mk(constraint) -> module, raw leaf name of the parameter that constraint governs)"""
+    B = torch.Size([2])
+    yield "Gaussian.noise", lambda c: L_.GaussianLikelihood(noise_constraint=c), "raw_noise"
+    yield "Gaussian-batch.noise", lambda c: L_.GaussianLikelihood(noise_constraint=c, batch_shape=B), "raw_noise"
+    yield "RBF.lengthscale", lambda c: k_.RBFKernel(lengthscale_constraint=c), "raw_lengthscale"
+    yield "RBF-ard.lengthscale", lambda c: k_.RBFKernel(ard_num_dims=2, lengthscale_constraint=c), "raw_lengthscale"
+    yield "Scale.outputscale", lambda c: k_.ScaleKernel(k_.RBFKernel(), outputscale_constraint=c), "raw_outputscale"
+    yield "Periodic.period_length", lambda c: k_.PeriodicKernel(period_length_constraint=c), "raw_period_length"
+    yield "RQ.alpha", lambda c: k_.RQKernel(alpha_constraint=c), "raw_alpha"
+    yield "Linear.variance", lambda c: k_.LinearKernel(variance_constraint=c), "raw_variance"
+    yield "ConstantMean.constant", lambda c: M_.ConstantMean(constant_constraint=c), "raw_constant"
+    yield "Cosine.period_length", lambda c: k_.CosineKernel(period_length_constraint=c), "raw_period_length"
+    yield "StudentT.noise", lambda c: L_.StudentTLikelihood(noise_constraint=c), "raw_noise"
+    # (StudentTLikelihood(deg_free_constraint=c) cannot be built unless c contains 7: its constructor ends with initialize(deg_free=7))
+    yield "Laplace.noise", lambda c: L_.LaplaceLikelihood(noise_constraint=c), "raw_noise"
+
+
+def mk_cons(spec):
+    kind, l, u = spec
+    return Interval(l, u) if kind == "interval" else GreaterThan(l) if kind == "greater" else LessThan(u)
+
+
+def draw_bounds(rng, kind=None, wider_than=None):
+    """(kind, l, u): dyadic bounds; successive draws differ in BOTH position and width"""
+    kind = kind or rng.choice(["interval", "interval", "greater", "less"])
+    if kind == "interval":
+        l = rng.randint(1, 48) / 16.0
+        return (kind, l, l + rng.choice([0.25, 0.5, 1.0, 3.0, 8.0, 40.0]))
+    if kind == "greater":
+        return (kind, rng.randint(1, 64) / 16.0, INF)
+    return (kind, -INF, rng.randint(16, 160) / 16.0)
+
+
+def find_param(m, leaf):
+    for d in discover(m):
+        if d[2] == leaf:
+            return d
+    raise RuntimeError("no constrained parameter %s" % leaf)
+
+
+def far_from_bounds(v, l, u):
+    return all(abs(v - b) > 1e-3 * (1 + abs(b)) for b in (l, u) if abs(b) != INF)
+
+
+def gen_bhistory(rng, spec0, maxlen):
+    """ops of part B plus operations that REPLACE the bounds: load (state dict of a module of the same constraint
+    class built with other bounds, holding an interior value of ITS bounds), load-bounds (only the bound buffers,
+    strict=False), register (register_constraint with a new constraint of any class), cast (.double() / .to() /
+    .cpu() / deepcopy / pickle / own state dict into a fresh module: bounds unchanged).  Assigned values are drawn
+    from the interior of the bounds in force, from the interior of the PREVIOUS bounds (accepted or not according to
+    the new bounds: the model decides) and from outside."""
+    cur, prev = spec0, None
+    ops = []
+    n = rng.randint(3, maxlen)
+    replaced = False
+    for i in range(n):
+        kinds = ["set", "set", "initcons", "initraw", "step", "step", "set_bad", "sample"]
+        if i < n - 1:
+            kinds += ["load", "load", "load", "load-bounds", "register", "register", "cast"]
+        if i == 0 or (i == n - 3 and not replaced):
+            kinds = ["load", "load", "load-bounds", "register"]
+        kind = rng.choice(kinds)
+        if kind in ("load", "load-bounds"):
+            spec = draw_bounds(rng, cur[0])
+            if spec == cur:
+                spec = draw_bounds(rng, cur[0])
+            v = pick_interior(spec[1], spec[2], rng)
+            ops.append((kind, list(spec), v))
+            prev, cur, replaced = cur, spec, True
+        elif kind == "register":
+            spec = draw_bounds(rng)
+            ops.append((kind, list(spec)))
+            prev, cur, replaced = cur, spec, True
+        elif kind == "cast":
+            # (a module with a prior registered by NAME holds local closures and cannot be pickled: no pickle after `sample`)
+            sampled = any(o_[0] == "sample" for o_ in ops)
+            ops.append((kind, rng.choice(["double", "to64", "cpu", "deepcopy", "state_dict"] + ([] if sampled else ["pickle"]))))
+        elif kind in ("set", "initcons", "set_bad"):
+            for _ in range(50):
+                src = rng.choice(["cur", "cur", "prev", "out"]) if kind != "set_bad" else "out"
+                if src == "prev" and prev is not None:
+                    v = pick_interior(prev[1], prev[2], rng)
+                elif src == "out":
+                    v = pick_outside(cur[1], cur[2], rng)
+                else:
+                    v = pick_interior(cur[1], cur[2], rng)
+                if far_from_bounds(v, cur[1], cur[2]):
+                    break
+            ops.append(("initcons" if kind == "initcons" else "set", v))
+        elif kind == "sample":
+            # a UniformPrior strictly inside the bounds in force, registered on the public name; seeded draw
+            l, u = cur[1], cur[2]
+            a = pick_interior(l, u, rng)
+            b = pick_interior(l, u, rng)
+            a, b = min(a, b), max(a, b)
+            if b - a < 1e-3:
+                b = a + 1e-3 if far_from_bounds(a + 2e-3, l, u) and (u == INF or a + 2e-3 < u) else a
+            ops.append(("sample", a, b, rng.randint(0, 10 ** 6)) if b > a else ("set", a))
+        elif kind == "initraw":
+            ops.append((kind, rng.choice([rng.gauss(0, 3), rng.uniform(-30, 30)])))
+        else:
+            ops.append((kind, rng.choice([0.01, 0.5, 5.0, 100.0]), rng.uniform(-3, 3)))
+    return ops
+
+
+def apply_bhistory(mk, leaf, spec0, ops):
+    """returns (raw0, trace, model ops): trace entries (rejected so far, read elem0, in CURRENT bounds (constraint
+    object's own buffers), bounds held by the constraint object (l, u), expected bounds)"""
+    import copy as _copy
+    import pickle as _pickle
+    m = mk(mk_cons(spec0))
+    _, owner, _, pub, c = find_param(m, leaf)
+    raw0 = getattr(owner, leaf).detach().reshape(-1)[0].item()
+    cur = tuple(spec0)
+    rej, trace, mops = 0, [], []
+    for o in ops:
+        kind = o[0]
+        mop = None
+        try:
+            if kind == "load":
+                donor = mk(mk_cons(tuple(o[1])))
+                _, downer, _, _, _ = find_param(donor, leaf)
+                setattr(downer, pub, torch.tensor(o[2]))
+                rawd = getattr(downer, leaf).detach().reshape(-1)[0].item()
+                sd = {k: v for k, v in m.state_dict().items() if "_prior_g." in k}    # priors registered by earlier `sample` ops
+                sd.update(donor.state_dict())
+                m.load_state_dict(sd)
+                cur = tuple(o[1])
+                mop = "BLoad %s %s" % (cons_lit(cur[1], cur[2]), econst(rawd))
+            elif kind == "load-bounds":
+                donor = mk(mk_cons(tuple(o[1])))
+                sd = {k: v for k, v in donor.state_dict().items() if k.endswith(leaf + "_constraint.lower_bound")
+                      or k.endswith(leaf + "_constraint.upper_bound")}
+                if len(sd) != 2:
+                    raise KeyError("bound buffers of %s not found in the state dict: %s" % (leaf, sorted(donor.state_dict())))
+                m.load_state_dict(sd, strict=False)
+                cur = tuple(o[1])
+                mop = "BReplace %s" % cons_lit(cur[1], cur[2])
+            elif kind == "register":
+                owner.register_constraint(leaf, mk_cons(tuple(o[1])))
+                cur = tuple(o[1])
+                mop = "BReplace %s" % cons_lit(cur[1], cur[2])
+            elif kind == "cast":
+                if o[1] == "double":
+                    m = m.double()
+                elif o[1] == "to64":
+                    m = m.to(torch.float64)
+                elif o[1] == "cpu":
+                    m = m.cpu()
+                elif o[1] == "deepcopy":
+                    m = _copy.deepcopy(m)
+                elif o[1] == "pickle":
+                    m = _pickle.loads(_pickle.dumps(m))
+                else:
+                    fresh = mk(mk_cons(cur))
+                    _, fowner, _, _, _ = find_param(fresh, leaf)
+                    if type(fowner.constraint_for_parameter_name(leaf)) is not type(find_param(m, leaf)[4]):
+                        fowner.register_constraint(leaf, mk_cons(cur))
+                    fresh.load_state_dict({k: v for k, v in m.state_dict().items() if "_prior_g." not in k})
+                    m = fresh
+                _, owner, _, pub, c = find_param(m, leaf)
+                mop = "BReplace %s" % cons_lit(cur[1], cur[2])
+        except RuntimeError as e:
+            return raw0, trace, mops, "%s raised %s: %s" % (kind, type(e).__name__, str(e)[:200])
+        try:
+            if kind == "set":
+                mop = "BOp (Set_ %s)" % C.qc_lit(o[1])
+                setattr(owner, pub, torch.tensor(o[1]))
+            elif kind == "initcons":
+                mop = "BOp (InitCons %s)" % C.qc_lit(o[1])
+                owner.initialize(**{pub: torch.tensor(o[1])})
+            elif kind == "initraw":
+                mop = "BOp (InitRaw %s)" % econst(o[1])
+                owner.initialize(**{leaf: torch.full_like(getattr(owner, leaf).data, o[1])})
+            elif kind == "sample":
+                prior = P.UniformPrior(o[1], o[2])
+                torch.manual_seed(o[3])
+                drawn = prior.sample().detach().reshape(-1)[0].item()
+                mop = "BOp (Set_ %s)" % C.qc_lit(drawn)
+                owner.register_prior(pub + "_prior_g", prior, pub)
+                torch.manual_seed(o[3])
+                owner.sample_from_prior(pub + "_prior_g")
+        except RuntimeError:
+            rej += 1
+        if kind == "step":
+            raw = getattr(owner, leaf)
+            before = raw.detach().clone()
+            opt = torch.optim.SGD([raw], lr=o[1])
+            opt.zero_grad()
+            loss = ((getattr(owner, pub) - (getattr(owner, pub).detach() + o[2])) ** 2).sum()
+            loss.backward()
+            opt.step()
+            delta = (raw.detach() - before).reshape(-1)[0].item()
+            mop = "BOp (Step %s)" % econst(delta if math.isfinite(delta) else 0.0)
+        c = owner.constraint_for_parameter_name(leaf)
+        with torch.no_grad():
+            rd = getattr(owner, pub)
+            lo, hi = c.lower_bound.expand(rd.shape), c.upper_bound.expand(rd.shape)
+            inb = bool(torch.isfinite(rd).all() and (rd >= lo).all() and (rd <= hi).all())
+            same = bool((rd == rd.reshape(-1)[0]).all()) if kind in ("set", "initcons", "initraw", "load", "sample") else True
+            trace.append((rej, rd.reshape(-1)[0].item(), inb, (lo.reshape(-1)[0].item(), hi.reshape(-1)[0].item()),
+                          (cur[1], cur[2]), getattr(owner, leaf).detach().reshape(-1)[0].item(), same))
+        mops.append(mop)
+    return raw0, trace, mops, None
+
+
+def part_bounds_replaced(out, rng, tier):
+    """G. the bounds of a constrained parameter are module STATE (buffers of the constraint, part of the state dict) and
+    the constraint object can be exchanged: histories that replace them, followed by the usual operations, against the
+    model cell under the bounds IN FORCE (Models/C17_constraints.v bstep; theorem c17_bounds_replaced_history_in_bounds).
+    Also the bare constraint modules: load_state_dict / deepcopy / cast, then transform / inverse_transform under the
+    new bounds."""
+    nh = 3 if tier == "quick" else 14
+    plan, terms = [], []
+    for name, mk, leaf in bounds_factories():
+        for h in range(nh):
+            kind0 = ["interval", "interval", "greater", "less"][h % 4] if tier != "quick" else rng.choice(["interval", "interval", "greater", "less"])
+            spec0 = draw_bounds(rng, "interval" if h == 0 else kind0)
+            ops = gen_bhistory(rng, spec0, 7)
+            desc = dict(part="bounds-replaced", module=name, bounds0=list(spec0), ops=[list(o) for o in ops])
+            key = name
+            try:
+                raw0, tr, mops, err = apply_bhistory(mk, leaf, spec0, ops)
+            except Exception as e:      # noqa: BLE001
+                out.case(dict(part="bounds-replaced", module=name, ops=[o[0] for o in ops]), True, label="bounds-replaced-history")
+                out.fail("bounds-replaced:%s:exception" % key, "history raised %s: %s" % (type(e).__name__, str(e)[:300]), desc)
+                continue
+            if err:
+                out.case(dict(part="bounds-replaced", module=name, ops=[o[0] for o in ops]), True, label="bounds-replaced-history")
+                out.fail("bounds-replaced:%s:replace-op-raised" % key, "replacing the bounds failed: %s" % err, desc)
+                continue
+            bad = [i for i, t in enumerate(tr) if not (math.isfinite(t[1]) and math.isfinite(t[5]))]
+            if bad:
+                i = bad[0]
+                out.case(dict(part="bounds-replaced", module=name, ops=[o[0] for o in ops]), True, label="bounds-replaced-history")
+                out.fail("bounds-replaced:%s:out-of-bounds" % key, "after op %d (%s) the parameter (raw %r) reads %r under bounds %s"
+                         % (i, ops[i][0], tr[i][5], tr[i][1], tr[i][4]), desc, impl=tr[i][1])
+                continue
+            terms.append("(KBHistory (%s, %s, [%s]))" % (cons_lit(spec0[1], spec0[2]), C.qc_lit(raw0), "; ".join(mops)))
+            plan.append((key, desc, tr, ops))
+    res = C.coq_run_cases("C17_bhist" + TAGSFX, IMPORTS, RUN_DEF, terms, shard=max(4, (len(terms) + 7) // 8)) if terms else []
+    for (key, desc, tr, ops), r in zip(plan, res):
+        rd = C.Reader(r)
+        out.case(dict(part="bounds-replaced", module=desc["module"], bounds0=desc["bounds0"], ops=[o[0] for o in ops]), True,
+                 label="bounds-replaced-history")
+        for o in ops:
+            out.count("bounds-replaced-op:" + (o[0] if o[0] != "cast" else "cast:" + o[1]))
+        for i, t in enumerate(tr):
+            rej_m = rd.int()
+            read_m = rd.expr()
+            l, u = t[4]
+            scale = 1.0 + sum(abs(b) for b in (l, u) if abs(b) != INF)
+            if tuple(t[3]) != (l, u):
+                out.fail("bounds-replaced:%s:bounds-not-replaced" % key, "after op %d (%s) the constraint holds bounds %s, expected %s"
+                         % (i, ops[i][0], t[3], (l, u)), desc, impl=list(t[3]), model=[l, u])
+                break
+            if not t[2]:
+                out.fail("bounds-replaced:%s:out-of-bounds" % key, "after op %d (%s) the parameter reads %r: outside the bounds in force "
+                         "[%r, %r]" % (i, ops[i][0], t[1], l, u), desc, impl=t[1], model=float(read_m))
+                break
+            if t[0] != rej_m:
+                out.fail("bounds-replaced:%s:rejection" % key, "op %d (%s %r under bounds [%r, %r]): implementation rejected %d "
+                         "assignments so far, model %d" % (i, ops[i][0], ops[i][1], l, u, t[0], rej_m), desc, impl=t[0], model=rej_m)
+                break
+            if not close(t[1], read_m, 1e-9 * scale, 1e-8):
+                out.fail("bounds-replaced:%s:read" % key, "after op %d (%s) the parameter reads %r, model %r (bounds in force [%r, %r])"
+                         % (i, ops[i][0], t[1], float(read_m), l, u), desc, impl=t[1], model=float(read_m))
+                break
+            if ops[i][0] == "load" and not close(t[1], ops[i][2], 1e-9 * scale, 1e-8):
+                out.fail("bounds-replaced:%s:saved-value-not-read-back" % key, "a module saved with value %r under bounds [%r, %r] "
+                         "reads %r after load_state_dict" % (ops[i][2], l, u, t[1]), desc, impl=t[1], model=ops[i][2])
+                break
+            if not t[6]:
+                out.fail("bounds-replaced:%s:elements-differ" % key, "after op %d (%s) the elements of the parameter differ" % (i, ops[i][0]), desc)
+                break
+    # bare constraint modules
+    import copy as _copy
+    grid = [-40.0, -12.0, -3.0, -0.5, 0.0, 0.25, 2.0, 7.0, 15.0, 40.0, 800.0, -800.0]
+    metas, terms = [], []
+    for _ in range(6 if tier == "quick" else 40):
+        spec0 = draw_bounds(rng)
+        spec1 = draw_bounds(rng, spec0[0])
+        how = rng.choice(["load_state_dict", "load_state_dict", "load+deepcopy", "load+double", "deepcopy+load"])
+        c = mk_cons(spec0)
+        if how.startswith("deepcopy"):
+            c = _copy.deepcopy(c)
+        c.load_state_dict(mk_cons(spec1).state_dict())
+        if how.endswith("deepcopy"):
+            c = _copy.deepcopy(c)
+        if how.endswith("double"):
+            c = c.double()
+        vals = interior_values(spec1[1], spec1[2], rng)
+        terms.append("(KTransform (%s, %s))" % (cons_lit(spec1[1], spec1[2]), C.qc_vec(grid)))
+        terms.append("(KInverse (%s, %s))" % (cons_lit(spec1[1], spec1[2]), C.qc_vec(vals)))
+        metas.append((spec0, spec1, how, c, vals))
+    res = C.coq_run_cases("C17_bcons" + TAGSFX, IMPORTS, RUN_DEF, terms, shard=max(2, (len(terms) + 3) // 4)) if terms else []
+    for k, (spec0, spec1, how, c, vals) in enumerate(metas):
+        l, u = spec1[1], spec1[2]
+        scale = 1.0 + sum(abs(b) for b in (l, u) if abs(b) != INF)
+        desc = dict(part="bounds-replaced", constraint=type(c).__name__, built=list(spec0), loaded=list(spec1), how=how)
+        out.case(desc, True, label="bounds-replaced-constraint")
+        rd = C.Reader(res[2 * k])
+        with torch.no_grad():
+            T = c.transform(torch.tensor(grid)).reshape(-1).tolist()
+        for r_, t in zip(grid, T):
+            mod = rd.expr()
+            if not math.isfinite(t) or t < l or t > u:
+                out.fail("bounds-replaced:%s:transform-leaves-bounds" % type(c).__name__, "built with %s, bounds %s loaded (%s): "
+                         "transform(%r) = %r is outside [%r, %r]" % (spec0, spec1, how, r_, t, l, u), dict(desc, raw=r_), impl=t, model=float(mod))
+                break
+            if not close(t, mod, 1e-9 * scale, 1e-9):
+                out.fail("bounds-replaced:%s:transform" % type(c).__name__, "built with %s, bounds %s loaded (%s): transform(%r) = %r, "
+                         "documented map under the loaded bounds %r" % (spec0, spec1, how, r_, t, float(mod)), dict(desc, raw=r_), impl=t, model=float(mod))
+                break
+        rd = C.Reader(res[2 * k + 1])
+        with torch.no_grad():
+            inv = c.inverse_transform(torch.tensor(vals)).reshape(-1)
+            back = c.transform(inv).reshape(-1).tolist()
+            inv = inv.tolist()
+        for v, iv, bk in zip(vals, inv, back):
+            if rd.int() != 1:
+                continue
+            mod = rd.expr()
+            if not close(iv, mod, 1e-9, 1e-9):
+                out.fail("bounds-replaced:%s:inverse" % type(c).__name__, "built with %s, bounds %s loaded (%s): inverse_transform(%r) = %r, "
+                         "documented inverse under the loaded bounds %r" % (spec0, spec1, how, v, iv, float(mod)), dict(desc, value=v), impl=iv, model=float(mod))
+                break
+            if not close(bk, v, 1e-9 * scale, 1e-9):
+                out.fail("bounds-replaced:%s:roundtrip" % type(c).__name__, "transform(inverse_transform(%r)) = %r after loading bounds %s"
+                         % (v, bk, spec1), dict(desc, value=v), impl=bk, model=v)
+                break
+
+
 # ------------------------------------------------------------------------------- entry points
 
 def run(out, ctx):
@@ -1213,7 +1553,7 @@ def run(out, ctx):
     times = {}
     for name, part in (("transforms", part_transforms), ("modules", part_modules), ("priors", part_priors),
                        ("prior_modules", part_prior_modules), ("lkj", part_lkj), ("prior_transforms", part_prior_transforms),
-                       ("multi", part_multi)):
+                       ("multi", part_multi), ("bounds_replaced", part_bounds_replaced)):
         t0 = time.time()
         part(out, rng, tier)
         times[name] = round(time.time() - t0, 1)
@@ -1234,7 +1574,15 @@ def run(out, ctx):
                 "module of B through Module.register_constraint, 2 rotations each; histories of set / tensor set / initialize (local and dotted name from the "
                 "root) / raw initialize / SGD step / out-of-bounds set (chosen inside a sibling's bounds where possible) / sample_from_prior (priors "
                 "registered by name) addressed to ALL parameters, EVERY parameter compared with the multi-parameter model after every op; sample_from_prior "
-                "through the constructors' own <param>_prior closures under the distinct constraints"
+                "through the constructors' own <param>_prior closures under the distinct constraints; "
+                "G: histories in which the BOUNDS of a parameter are replaced (12 module configurations x 3 histories, initial class Interval / "
+                "GreaterThan / LessThan): load_state_dict from a module of the same constraint class built with other bounds (position and width "
+                "differ) holding an interior value of its own bounds, load_state_dict of the bound buffers only (strict=False), register_constraint "
+                "with a new constraint of any class, .double() / .to() / .cpu() / deepcopy / pickle / state-dict round trip into a fresh module, "
+                "each followed by read / set (values from the interior of the bounds in force, of the PREVIOUS bounds, and outside) / initialize / "
+                "raw initialize / SGD step / sample_from_prior (seeded UniformPrior), every read compared with the model cell under the bounds IN "
+                "FORCE and the constraint's own buffers with the expected bounds; bare constraint objects after load_state_dict / deepcopy / cast: "
+                "transform over a raw grid and inverse_transform / round trip under the loaded bounds"
                 % (len(RAW_GRID) + (20 if tier == "quick" else 200), len(list(modules_table())), len(list(prior_modules(rng))),
                    len(list(ctor_table()))))
     out.exhaustive = False
